@@ -228,6 +228,7 @@ class PathChecker:
         self.friendly = None
         self.reproduced = 0
         self.seen = {}
+        self.twins_ok = set()
         self.npaths = 0
         self.model_timeout_ms = 5000
 
@@ -420,12 +421,16 @@ class PathChecker:
                 self._counterexample(s, name, res)
             s.pop()
         for name, f in twins:
+            if name in self.twins_ok:
+                continue                       # already witnessed for this configuration
             f = L.bool(f)
-            s.push()
-            s.add(f)
-            r = core.timed_check(s, 10000)
-            s.pop()
+            if z3.is_false(z3.simplify(f)):
+                res['twins'][name] = False
+                continue
+            r, _ = core.robust_check(self.base + ex.pc + L.axioms + [f], 20000)
             res['twins'][name] = (r == z3.sat)
+            if r == z3.sat:
+                self.twins_ok.add(name)
         res['solver_s'] = time.time() - ts
         # witness validation
         self.npaths += 1
@@ -569,6 +574,7 @@ def run_job(job):
             _W[key] = pc
         for k, v in job.get('seen', {}).items():
             pc.seen[k] = max(pc.seen.get(k, 0), v)
+        pc.twins_ok.update(job.get('twins_ok', []))
         stack = [list(p) for p in job['prefixes']]
         agg = dict(cfg=job['cfg'].get('name'), paths=0, decisions=0, obligations=0, discharged=0, trivial=0, unknown=[], validation_skipped=0, validation_knife_edge=0,
                    violations=[], unreproduced=[], twins={}, validated=0, validation_failed=[], inconclusive=[],
@@ -668,7 +674,8 @@ def run_property(prop, module, tier, seed=0, workers=None, deadline_s=None, extr
         while pending_jobs or running:
             while pending_jobs and len(running) < workers * 2:
                 j = pending_jobs.popleft()
-                j = dict(j, seen=dict(seen_by_cfg.get(j['cfg']['name'], {})))
+                j = dict(j, seen=dict(seen_by_cfg.get(j['cfg']['name'], {})),
+                         twins_ok=[k for k, v in per[j['cfg']['name']]['twins'].items() if v])
                 running[pool.submit(run_job, j)] = j
             done, _ = wait(list(running), timeout=5, return_when=FIRST_COMPLETED)
             if time.time() - last_progress > 30:
